@@ -306,9 +306,14 @@ def rowGet (i : Nat) : Val → Val
 
 /-- `def transpose: [range([.[] | length] | max) as $i | [.[][$i]]];` on an array whose rows
 are arrays or `null`; `none` = outside the model.  `max` is `max_by(.)` on the lengths. -/
+def rowLenV (r : Val) : Except Unit Val :=
+  match rowLen r with
+  | some n => .ok (vInt (Int.ofNat n))
+  | none => .error ()
+
 def transpose : Val → Option Val
   | .arr rows =>
-    match mapM' (fun r => match rowLen r with | some n => Except.ok (vInt (Int.ofNat n)) | none => .error ()) rows with
+    match mapM' rowLenV rows with
     | .error _ => none
     | .ok lens =>
       match maxByKey (ε := Unit) .null Val.cmp (fun v => .ok [v]) lens with
@@ -381,15 +386,25 @@ def toTypeCur (p : Val → Bool) (e : Err) (v : Val) (fj : List ValR) : List Val
       | .ok y :: rest => if p y then .ok y :: go rest else [.error e]
     go fj
 
+/-- the first error of a stream -/
+def firstError : List ValR → Option Err
+  | [] => none
+  | .error e :: _ => some e
+  | .ok _ :: rest => firstError rest
+
 /-- the reading of the manual ("parsed to a number, failing if this does not succeed"):
-exactly one output — the single parsed value if it has the type, else a failure -/
+exactly one output — the single parsed value if it has the type, else a failure
+(`[fromjson] | if length == 1 and (.[0] | p) then .[0] else e end`: an error of the reader
+is the failure) -/
 def toTypeSpec (p : Val → Bool) (e : Err) (v : Val) (fj : List ValR) : List ValR :=
   if p v then [.ok v]
   else
-    match fj with
-    | [.ok y] => if p y then [.ok y] else [.error e]
-    | .error er :: _ => [.error er]
-    | _ => [.error e]
+    match firstError fj with
+    | some er => [.error er]
+    | none =>
+      match fj with
+      | [.ok y] => if p y then [.ok y] else [.error e]
+      | _ => [.error e]
 
 def toType (p : Val → Bool) (e : Err) (v : Val) (fj : List ValR) : List ValR :=
   if fixedToType then toTypeSpec p e v fj else toTypeCur p e v fj
